@@ -78,10 +78,10 @@ type c10Case struct {
 }
 
 // genRegions draws a valid table: plain regions {start,end} inclusive, first starts at 0, every
-// plain region has at least two sectors (single-sector plain regions are ambiguous in the
-// statement), later regions may lie beyond the file.
+// plain region has at least two sectors except in the shape "one-sector-plain" ({s,s}: the end is the
+// region's last sector), later regions may lie beyond the file.
 func genRegions(r *rand.Rand, sectors int) ([]refcrypt.Region, string) {
-	shape := []string{"two", "few", "many", "adjacent", "enc-to-eof", "beyond", "last-sector", "far-border"}[r.Intn(8)]
+	shape := []string{"two", "few", "many", "adjacent", "enc-to-eof", "beyond", "last-sector", "far-border", "one-sector-plain"}[r.Intn(9)]
 	var regs []refcrypt.Region
 	cur := uint32(0)
 	add := func(plainLen, gap uint32) {
@@ -121,6 +121,18 @@ func genRegions(r *rand.Rand, sectors int) ([]refcrypt.Region, string) {
 		add(uint32(2+r.Intn(5)), uint32(sectors))
 		add(10, 3)
 		add(7, 0)
+	case "one-sector-plain":
+		// the end of a plain region is its last sector (inclusive): {s,s} is a plain region of one sector;
+		// with {0,0} first, the encrypted region starts at sector 1
+		first := uint32(1)
+		if r.Intn(3) == 0 {
+			first = uint32(2 + r.Intn(4))
+		}
+		add(first, uint32(1+r.Intn(3)))
+		for i := 0; i < 1+r.Intn(4); i++ {
+			add(uint32(1+r.Intn(2)), uint32(r.Intn(3)))
+		}
+		add(uint32(2+r.Intn(4)), 0)
 	case "far-border":
 		// sector numbers are 32-bit unsigned in the table: later plain regions may start at or beyond
 		// 2^31 (far behind the file): everything after the first plain region is encrypted up to EOF
